@@ -345,10 +345,26 @@ class Program:
                 elif isinstance(st, (ast.Expr, ast.Return)):
                     if st.value is not None:
                         do_calls(st.value)
+                elif isinstance(st, (ast.FunctionDef, ast.AsyncFunctionDef)):
+                    # a function defined here sees the locals of this one (its own parameters shadow them): its stores are stores of this function
+                    nested.append(st)
+                    run_nested(st)
                 elif isinstance(st, (ast.Raise, ast.Assert, ast.Delete)):
                     continue
 
+        nested = []
+
+        def run_nested(fdef):
+            saved = {k: set(v) for k, v in state.items()}
+            for a in fdef.args.posonlyargs + fdef.args.args + fdef.args.kwonlyargs:
+                state[a.arg] = set()
+            run(fdef.body)
+            state.clear()
+            state.update(saved)
+
         run(fn.body)
+        for fdef in list(nested):
+            run_nested(fdef)            # late binding: once more with what the enclosing function has bound by its end
         # several passes are not needed: writes are collected while the state evolves
         seen, uniq = set(), []
         for o, node, how in writes:
